@@ -125,6 +125,18 @@ def run(ctx, replay=None):
     jobs = [(p,) for p in progs]
     for _ in range(ctx.pick(1500, 30000)):
         jobs.append((gen_struct.rprogram(rnd, maxdepth=rnd.choice(ctx.pick([3, 4, 5, 6], [3, 5, 6, 8]))), None, False))
+    # parse-only programs (C07 is static): loops on literal conditions with and without break, an if on a literal; and the random
+    # programs once more with layout-neutral trailing blanks / tabs on every line
+    lit = ['1', '0', 'true', 'null', "'s'", '2.5']
+    for cnd in lit:
+        for body in ('x = 1', 'x = 1\n    break', 'if x:\n        continue\n    endif\n    x = 2'):
+            jobs.append((None, f'while {cnd}:\n    {body}\nendwhile\n', False))
+            jobs.append((None, f'function f1():\n    while {cnd}:\n        y = 2\n    endwhile\nendfunction\n', False))
+        jobs.append((None, f'if {cnd}:\n    x = 1\nelif {cnd}:\n    x = 2\nelse:\n    x = 3\nendif\nfor v in arrayNew({cnd}):\n    x = v\nendfor\n', False))
+    for _ in range(ctx.pick(400, 8000)):
+        prog = gen_struct.rprogram(rnd, maxdepth=rnd.choice([2, 3, 4]))
+        text = '\n'.join(ln + rnd.choice(['', '', ' ', '  ', '\t']) for ln in A.struct_text(prog)) + '\n'
+        jobs.append((prog, text, False))
     cases = F.pmap(wf_case, jobs)
     F.judge(ctx, 'Trace_WF', cases, canaries, cfg_consts=DEV, key_fields=('text',),
             describe=lambda c: {'source': c['text'].split('\n')[:30], 'reserved_labels': c['reserved'][:12]},
